@@ -111,6 +111,8 @@ def binary_templates(da, db):
             t[nm] = ("{V}." + nm + "({W})", da if nm in ("add", "subtract") else None)
         for nm in ("is_parallel", "is_antiparallel", "is_perpendicular"):
             t[nm] = ("{V}." + nm + "({W}, s_tolerance)", None)
+        t["isclose_tol"] = ("{V}.isclose({W}, s_rtol, s_atol)", None)
+        t["isclose_kw"] = ("{V}.isclose({W}, rtol=s_rtol, atol=s_atol)", None)
         t["op_add"] = ("{V} + {W}", da)
         t["op_sub"] = ("{V} - {W}", da)
         t["op_matmul"] = ("{V} @ {W}", None)
@@ -211,12 +213,17 @@ def strategy(cell, tier):
         first = st.sampled_from(pool)
     stmt = st.tuples(first, st.one_of(st.none(), st.integers(0, 20)), st.one_of(st.none(), st.none(), st.integers(0, 20)))
     nstmt = 8 if cell["group"] != "construct" else 4
-    one = st.fixed_dictionaries({"a": gen.vec(("moderate",)), "b": gen.vec(("moderate",)), "beta3": gen.beta3(moderate=True)})
+    # the second operand is independent, identical, or equal up to a relative / absolute offset (comparisons and closeness
+    # tests are only informative for related pairs)
+    one = st.fixed_dictionaries({"a": gen.vec(("moderate",)), "b": gen.vec(("moderate",)), "beta3": gen.beta3(moderate=True),
+                                 "rel": st.sampled_from(("independent", "independent", "independent", "equal", "near_rel", "near_abs")),
+                                 "delta": st.sampled_from((1e-10, 1e-7, 3e-5, 2e-3, 0.03))})
     sc = st.fixed_dictionaries({
         "s_angle": st.floats(-3.0, 3.0), "s_factor": gen.factor().filter(lambda f: abs(f) > 0.05), "s_beta": gen.moderate_beta(),
         "s_gamma": gen.moderate_gamma(), "s_tolerance": st.sampled_from((0.0, 1e-5, 1e-3, 0.05)), "s_phi": st.floats(-3.0, 3.0),
         "s_theta": st.floats(-3.0, 3.0), "s_psi": st.floats(-3.0, 3.0), "q": gen.quaternion(), "m2": gen.matrix(2), "m3": gen.matrix(3),
-        "m4": gen.matrix(4), "order": st.sampled_from(gen.EULER_ORDERS)})
+        "m4": gen.matrix(4), "order": st.sampled_from(gen.EULER_ORDERS),
+        "s_rtol": st.sampled_from((0.0, 1e-9, 1e-6, 1e-3, 0.05)), "s_atol": st.sampled_from((0.0, 1e-9, 1e-6, 1e-3, 0.05))})
     return st.fixed_dictionaries({"prog": st.lists(stmt, min_size=nstmt, max_size=nstmt).map(lambda l: [[f, None, None] for f in fixed] + [list(x) for x in l][len(fixed):]),
                                   "el": st.lists(one, min_size=6, max_size=6), "sc": sc})
 
@@ -244,7 +251,7 @@ def _expr(cell, stmt, order):
     return src, rd
 
 
-PARAMS = "s_angle, s_factor, s_beta, s_gamma, s_tolerance, s_phi, s_theta, s_psi, q0, q1, q2, q3, m2, m3, m4"
+PARAMS = "s_angle, s_factor, s_beta, s_gamma, s_tolerance, s_phi, s_theta, s_psi, q0, q1, q2, q3, m2, m3, m4, s_rtol, s_atol"
 
 
 def _build_function(cell, exprs, two):
@@ -289,6 +296,14 @@ def _same(ctx, cell, what, a, b, variant, margin_ok=True):
         sc = R.scale_of(sa_, sb_)
         for x, y in zip(sa_, sb_):
             if not (opcheck.close(x, y, TOL, sc) or R.angle_close(x, y, TOL * sc)):
+                # the angles of a result that is (numerically) at rest or on an axis are noise: the same vector in Cartesian
+                # components is the same result
+                try:
+                    ca, cb = R.to_cartesian(obs.system_of(a), sa_), R.to_cartesian(obs.system_of(b), sb_)
+                    if all(obs.finite(v) for v in ca + cb) and opcheck.vec_close(ca, cb, TOL, R.scale_of(ca, cb)):
+                        return None
+                except Exception:  # noqa: BLE001
+                    pass
                 return f"compiled {opcheck.fmt(sa_)} != interpreted {opcheck.fmt(sb_)}"
         return None
     if isinstance(b, (bool, numpy.bool_)) or isinstance(a, (bool, numpy.bool_)):
@@ -296,6 +311,12 @@ def _same(ctx, cell, what, a, b, variant, margin_ok=True):
             return ("bool", f"compiled {a} != interpreted {b}")
         return None
     try:
+        if "deltaangle" in str(what):
+            # acos is ill-conditioned at +-1: nearly (anti)parallel operands agree in the cosine
+            import math
+
+            if opcheck.close(math.cos(float(a)), math.cos(float(b)), TOL, 1):
+                return None
         if not opcheck.close(a, b, TOL, R.scale_of(a, b)):
             return f"compiled {a!r} != interpreted {b!r}"
     except Exception:  # noqa: BLE001
@@ -314,7 +335,11 @@ def check_case(cell, case, ctx):
     ctx.evaluations -= 1
 
 
-def _operands(cell, el):
+COMPARISONS = ("equal", "not_equal", "isclose", "isclose_tol", "isclose_kw", "op_eq", "op_ne", "is_parallel", "is_antiparallel",
+               "is_perpendicular")
+
+
+def _operands(cell, el, related=False):
     sa = opcheck.parse_system(cell["sa"])
     ra = lattice.rows_for(sa, [el["a"]["c"]], cell["da"])
     if ra is None:
@@ -324,6 +349,14 @@ def _operands(cell, el):
     if cell["db"]:
         sb = opcheck.parse_system(cell["sb"])
         c = el["b"]["c"] if cell["db"] != 3 else [*el["beta3"], 0.0]
+        if related and cell["db"] == cell["da"] and el.get("rel") in ("equal", "near_rel", "near_abs"):
+            a_ = [x * el.get("mag", 1.0) for x in el["a"]["c"]]
+            dl = el.get("delta", 0.0)
+            c = list(a_) if el["rel"] == "equal" else ([x * (1 + dl) for x in a_] if el["rel"] == "near_rel" else [x + dl * el.get("mag", 1.0) for x in a_])
+            ra = lattice.rows_for(sa, [a_], cell["da"])
+            if ra is None:
+                return None
+            v1 = mpbackend.make(sa, ra[0], cell["fa"] == "m", False)
         rb = lattice.rows_for(sb, [c], cell["db"])
         if rb is None:
             return None
@@ -336,7 +369,7 @@ def _args(case, two, v1, v2):
     q = sc["q"]
     args = [v1] + ([v2] if two else [])
     args += [sc["s_angle"], sc["s_factor"], sc["s_beta"], sc["s_gamma"], sc["s_tolerance"], sc["s_phi"], sc["s_theta"], sc["s_psi"],
-             q[0], q[1], q[2], q[3], _typed(sc["m2"]), _typed(sc["m3"]), _typed(sc["m4"])]
+             q[0], q[1], q[2], q[3], _typed(sc["m2"]), _typed(sc["m3"]), _typed(sc["m4"]), sc["s_rtol"], sc["s_atol"]]
     return args
 
 
@@ -406,13 +439,27 @@ def _check_program(cell, case, ctx):
                 ctx.fact("compile", [keep[i][0], cell["da"], cell["db"], cell["sa"], cell["sb"], "ok"])
             else:
                 ctx.fact("compile", [keep[i][0], cell["da"], cell["db"], cell["sa"], cell["sb"], "fail:" + erri + " :: " + e])
-    for el in case["el"]:
-        ops = _operands(cell, el)
+    runs = [(el, False) for el in case["el"]]
+    if two and cell["db"] == cell["da"]:
+        # comparison statements are also evaluated on related pairs (identical, or equal up to a relative / absolute offset);
+        # the other statements are not - differences and their units are ill-conditioned there
+        # (a small grid per program: relation x offset x overall magnitude - the relative and the absolute tolerance only
+        # play different roles for components far from 1)
+        if any(keep[i][0] in COMPARISONS and keep[i][1] is None for i in compiled):
+            for el in case["el"][:2]:
+                for rel in ("equal", "near_rel", "near_abs"):
+                    for dl in ((0.0,) if rel == "equal" else (1e-10, 1e-7, 3e-5, 2e-3, 0.03)):
+                        for mag in (1e-3, 1.0, 1e3):
+                            runs.append(({**el, "rel": rel, "delta": dl, "mag": mag}, True))
+    for el, related in runs:
+        ops = _operands(cell, el, related)
         if ops is None:
             continue
         args = _args(case, two, *ops)
         cache = {}
         for i, (fn, pos) in compiled.items():
+            if related and not (keep[i][0] in COMPARISONS and keep[i][1] is None):
+                continue
             ctx.evaluation()
             try:
                 if id(fn) not in cache:
@@ -440,9 +487,47 @@ def _check_program(cell, case, ctx):
                 if isinstance(err, tuple):
                     kind, err = err
                 if kind == "bool":
-                    # decision margin: evaluate both at a slightly perturbed tolerance? skip decisions within rounding of the threshold
-                    ctx.exclude("boolean_at_threshold")
-                    continue
+                    # a decision within rounding of its threshold may legitimately differ: the interpreter's own decision must be
+                    # stable under 1e-9 relative perturbations of the second operand and of the tolerances before a mismatch counts
+                    stable = True
+                    if two and keep[i][0] in ("equal", "not_equal", "op_eq", "op_ne"):
+                        # exact comparison of the same vector stored in two systems (or offset by less than rounding) is decided
+                        # by the last bit of a conversion: not a threshold either side has to reproduce
+                        c1_, c2_ = obs.cart_of(ops[0]), obs.cart_of(ops[1])
+                        same_stored = obs.system_of(ops[0]) == obs.system_of(ops[1]) and tuple(obs.stored(ops[0])) == tuple(obs.stored(ops[1]))
+                        if not same_stored and opcheck.vec_close(c1_, c2_, mpf("1e-12"), R.scale_of(c1_, c2_)):
+                            stable = False
+                    if keep[i][0] in catalog.OPS and keep[i][1] is None:
+                        # distance of the exact decision value from its threshold (zero-width for tolerance 0)
+                        try:
+                            m_ = catalog.margin(catalog.OPS[keep[i][0]], obs.cart_of(ops[0]), obs.cart_of(ops[1]) if two else None,
+                                                {"tolerance": mpf(case["sc"]["s_tolerance"])})
+                            if m_ is not None and m_ < mpf("1e-9"):
+                                stable = False
+                        except Exception:  # noqa: BLE001
+                            stable = False
+                    for eps in (1e-9, -1e-9):
+                        try:
+                            pert = list(args)
+                            if two:
+                                o2 = ops[1]
+                                pert[1] = mpbackend.make(obs.system_of(o2), tuple(float(x) * (1 + eps) if k_ == 0 else float(x) for k_, x in enumerate(obs.stored(o2))),
+                                                         obs.is_momentum(o2), False)
+                            base = 1 + (1 if two else 0)
+                            names_ = [n.strip() for n in PARAMS.split(",")]
+                            for nm_ in ("s_tolerance", "s_rtol", "s_atol"):
+                                j_ = base + names_.index(nm_)
+                                pert[j_] = pert[j_] * (1 + 1000 * eps)
+                            with numpy.errstate(all="ignore"):
+                                w2 = fn.py_func(*pert)[pos]
+                            if bool(w2) != bool(b):
+                                stable = False
+                        except Exception:  # noqa: BLE001
+                            stable = False
+                    if not stable:
+                        ctx.exclude("boolean_at_threshold")
+                        continue
+                    kind = "value"
                 fail(kind, f"`{exprs[i]}`: {err}; operands v1={ops[0]!r}" + (f" v2={ops[1]!r}" if two else ""), keep[i][0])
                 continue  # only reached for a recorded known finding
             nontrivial = cell["sa"] not in ("xy", "xy_z", "xy_z_t") or cell["fa"] == "m" or keep[i][1] is not None
@@ -483,7 +568,7 @@ def _check_awkward(cell, case, ctx):
     sc = case["sc"]
     q = sc["q"]
     extra = [sc["s_angle"], sc["s_factor"], sc["s_beta"], sc["s_gamma"], sc["s_tolerance"], sc["s_phi"], sc["s_theta"], sc["s_psi"],
-             q[0], q[1], q[2], q[3], _typed(sc["m2"]), _typed(sc["m3"]), _typed(sc["m4"])]
+             q[0], q[1], q[2], q[3], _typed(sc["m2"]), _typed(sc["m3"]), _typed(sc["m4"]), sc["s_rtol"], sc["s_atol"]]
     ns = {"numpy": numpy, "vector": vector}
     exec(src, ns)  # noqa: S102
     try:
